@@ -2,18 +2,18 @@
 From Coq Require Import Permutation.
 From ChiaV.Base Require Import Bytes Sha256.
 From ChiaV.Gen Require Import Dl.
-From ChiaV.Dl Require Import Format Map Tree Blob Abs Inv History Spec FormatProofs BlobLemmas BlobOps.
+From ChiaV.Dl Require Import Format Map Tree Blob Abs Inv History Spec PreFix Refuted.
 From ChiaV.Props Require Import C18.
 Open Scope N_scope.
 
 Check C18_tree_op_refines_map : forall H, (forall x, H x <> []) -> forall o ot m,
-  tree_refines H ot m -> known_top m o = false ->
+  tree_refines H ot m ->
   let '(ok1, ot1) := step1 H o ot in
   let '(ok0, m0) := step0 o m in
   ok1 = ok0 /\ tree_refines H ot1 m0 /\ (ok1 = false -> ot1 = ot).
 Print Assumptions C18_tree_op_refines_map.
 Check C18_tree_history_refines_map : forall H, (forall x, H x <> []) -> forall ops,
-  known_hist ops [] = false -> tree_refines H (run1 H ops None) (run0 ops []).
+  tree_refines H (run1 H ops None) (run0 ops []).
 Print Assumptions C18_tree_history_refines_map.
 Check C18_root_is_recomputation : forall H t, twf H t ->
   t_hash (t_rehash H t) = merkle H t /\ twf H (t_rehash H t) /\ t_all_clean (t_rehash H t) = true.
@@ -23,7 +23,6 @@ Check C18_proofs_valid : forall H t k, twf H t -> t_all_clean t = true -> In k (
             exists v, m_get k (t_kv t) = Some (v, p_node_hash p).
 Print Assumptions C18_proofs_valid.
 Check C18_history_root_and_proofs : forall H, (forall x, H x <> []) -> forall ops,
-  known_hist ops [] = false ->
   let m := run0 ops [] in
   match run1 H (ops ++ [THash]) None with
   | None => m = []
@@ -39,65 +38,52 @@ Check C18_block_codec : forall b, wf_block b ->
 Print Assumptions C18_block_codec.
 Check C18_inv_abs : forall H s t, Inv_tree H s t -> abs s = Some (Some (erase t)).
 Print Assumptions C18_inv_abs.
-Check C18_blob_mark_lineage : forall c s hole fuel,
-  ctx_rep s c hole -> closed c -> blen_ok s -> NoDup (ctx_indices c) -> hole < 2 ^ 32 -> Forall wf_frame c ->
-  (forall f, In f c -> ~ In (fr_idx f) (free s)) ->
-  (length c < fuel)%nat ->
-  match c with
-  | [] => True
-  | f :: _ =>
-      exists s', mark_lineage fuel (fr_idx f) s = (Ok tt, s') /\
-        ctx_rep s' (map set_dirty c) hole /\
-        (forall j, ~ In j (map fr_idx c) -> get_block s' j = get_block s j) /\
-        nblocks s' = nblocks s /\ blen_ok s' /\ free s' = free s /\ k2i s' = k2i s /\ h2i s' = h2i s
-  end.
-Print Assumptions C18_blob_mark_lineage.
-Check C18_blob_upsert_refines_tree : forall H s t k v h,
-  Inv_tree H s t -> v < 2 ^ 64 -> length h = HASH_BYTES ->
-  In k (it_keys t) ->
-  (forall i' k' v', In (i', k', v', h) (it_leaves t) -> k' = k) ->
-  exists s' t', upsert H k v h s = (Ok tt, s') /\ Inv_tree H s' t' /\
-    t_upsert H k v h (Some (erase t)) = (true, Some (erase t')).
+Check C18_blob_insert_refines_tree : forall H, (forall x, length (H x) = HASH_BYTES) ->
+  forall s ot k v h loc,
+  Abs H s ot -> in_range k v h -> room s ->
+  step_ok H (OInsert k v h loc) s ot (op_to_top s (OInsert k v h loc)).
+Print Assumptions C18_blob_insert_refines_tree.
+Check C18_blob_delete_refines_tree : forall H s ot k,
+  Abs H s ot -> step_ok H (ODelete k) s ot (TDelete k).
+Print Assumptions C18_blob_delete_refines_tree.
+Check C18_blob_upsert_refines_tree : forall H, (forall x, length (H x) = HASH_BYTES) ->
+  forall s ot k v h,
+  Abs H s ot -> in_range k v h -> room s -> step_ok H (OUpsert k v h) s ot (TUpsert k v h).
 Print Assumptions C18_blob_upsert_refines_tree.
-Check C18_blob_insert_first_refines_tree : forall H k v h loc,
-  k < 2 ^ 64 -> v < 2 ^ 64 -> length h = HASH_BYTES -> loc = LAuto \/ loc = LRoot ->
-  exists s', insert H k v h loc empty_blob = (Ok 0, s') /\ Inv_tree H s' (ILeaf 0 k v h) /\
-    t_insert H k v h (match loc with LAuto => TAuto | _ => TRoot end) None = (true, Some (erase (ILeaf 0 k v h))).
-Print Assumptions C18_blob_insert_first_refines_tree.
-Check C18_blob_delete_last_refines_tree : forall H s i k v h,
-  Inv_tree H s (ILeaf i k v h) ->
-  delete k s = (Ok tt, empty_blob) /\ t_delete k (Some (erase (ILeaf i k v h))) = (true, None).
-Print Assumptions C18_blob_delete_last_refines_tree.
-Check C18_blob_history_refines_map_partial : forall H s t k v h,
-  Inv_tree H s t -> v < 2 ^ 64 -> length h = HASH_BYTES -> In k (it_keys t) ->
-  (forall i' k' v', In (i', k', v', h) (it_leaves t) -> k' = k) ->
-  exists s' t', step2 H (OUpsert k v h) s = (Ok None, s') /\ Inv_tree H s' t' /\
-    abs s = Some (Some (erase t)) /\ abs s' = Some (Some (erase t')) /\
-    step1 H (TUpsert k v h) (Some (erase t)) = (true, Some (erase t')).
+Check C18_blob_batch_rejects_duplicates : forall H s ot items,
+  Abs H s ot -> m_batch items (ot_kv ot) = None ->
+  exists e, step2 H (OBatch items) s = (Err e, s) /\ step1 H (TBatch items) ot = (false, ot).
+Print Assumptions C18_blob_batch_rejects_duplicates.
+Check C18_blob_content_is_map : forall H s ot m, Abs H s ot -> tree_refines H ot m -> content_is s m.
+Print Assumptions C18_blob_content_is_map.
+Check C18_blob_history_refines_map_partial : forall H, (forall x, length (H x) = HASH_BYTES) -> forall ops,
+  Forall (fun o => is_idu o = true) ops -> Forall op_in_range ops -> rooms H ops empty_blob ->
+  let '(s', m', fine) := run_joint H ops empty_blob [] in
+  fine = true /\ exists ot', Abs H s' ot' /\ abs s' = Some ot' /\ tree_refines H ot' m' /\ content_is s' m'.
 Print Assumptions C18_blob_history_refines_map_partial.
 Check C18_invariant_inhabited : exists s t, Inv_tree sha256 s t /\ abs s = Some (Some (erase t)).
 Print Assumptions C18_invariant_inhabited.
-Check C18_batch_duplicate_refuted :
-  exists items, known_top [] (TBatch items) = true /\
-    let '(x, s) := step2 sha256 (OBatch items) empty_blob in
-    is_ok x = true /\ check_integrity sha256 s <> Ok tt.
-Print Assumptions C18_batch_duplicate_refuted.
-Check C18_upsert_other_hash_refuted :
-  exists ops, known_hist2 sha256 ops empty_blob [] = true /\
-    let s3 := run2 sha256 (removelast ops) empty_blob in
-    let '(x, s) := step2 sha256 (last ops OHash) s3 in
-    check_integrity sha256 s3 = Ok tt /\ is_ok x = true /\
-    check_integrity sha256 s <> Ok tt /\ is_ok (reload (bytes_of_blocks (blocks s))) = false.
-Print Assumptions C18_upsert_other_hash_refuted.
-Check C18_batch_not_atomic_refuted :
-  exists o, known_top [] (match op_to_top empty_blob o with Some t => t | None => THash end) = true /\
-    let '(x, s) := step2 sha256 o empty_blob in
-    is_ok x = false /\ blocks s <> blocks empty_blob.
-Print Assumptions C18_batch_not_atomic_refuted.
-Check C18_stale_index_refuted :
-  exists ops, known_hist2 sha256 ops empty_blob [] = true /\
-    let s3 := run2 sha256 (removelast ops) empty_blob in
-    let '(x, s) := step2 sha256 (last ops OHash) s3 in
-    get_keys_values s3 = Ok [(1, 1)] /\ is_ok x = true /\
-    get_keys_values s = Ok [(2, 2); (3, 3)].
-Print Assumptions C18_stale_index_refuted.
+Check C18_prefix_batch_duplicate_refuted :
+  (let '(x, s) := batch_insert_pre sha256 w_batch_dup empty_blob in
+   is_ok x = true /\ check_integrity sha256 s <> Ok tt) /\
+  exists e, batch_insert sha256 w_batch_dup empty_blob = (Err e, empty_blob).
+Print Assumptions C18_prefix_batch_duplicate_refuted.
+Check C18_prefix_upsert_other_hash_refuted :
+  let s3 := run2 sha256 w_three empty_blob in
+  check_integrity sha256 s3 = Ok tt /\
+  (let '(x, s) := upsert_pre sha256 1 5 (hh 2) s3 in
+   is_ok x = true /\ check_integrity sha256 s <> Ok tt /\ is_ok (reload (bytes_of_blocks (blocks s))) = false) /\
+  exists e, upsert sha256 1 5 (hh 2) s3 = (Err e, s3).
+Print Assumptions C18_prefix_upsert_other_hash_refuted.
+Check C18_prefix_batch_not_atomic_refuted :
+  (let '(x, s) := batch_insert_pre sha256 w_batch_partial empty_blob in
+   is_ok x = false /\ blocks s <> blocks empty_blob) /\
+  exists e, batch_insert sha256 w_batch_partial empty_blob = (Err e, empty_blob).
+Print Assumptions C18_prefix_batch_not_atomic_refuted.
+Check C18_prefix_stale_index_refuted :
+  let s3 := run2 sha256 w_two_minus_one empty_blob in
+  get_keys_values s3 = Ok [(1, 1)] /\
+  (let '(x, s) := insert_pre sha256 3 3 (hh 3) (LLeaf 2 SLeft) s3 in
+   is_ok x = true /\ get_keys_values s = Ok [(2, 2); (3, 3)]) /\
+  exists e, insert sha256 3 3 (hh 3) (LLeaf 2 SLeft) s3 = (Err e, s3).
+Print Assumptions C18_prefix_stale_index_refuted.
